@@ -317,5 +317,9 @@ def run(ctx):
         fw = [blk for blk in pg.blocks if blk.term.kind == 'call' and blk.term.rcallee and strip_generics(blk.term.rcallee) == 'deadpool_postgres::StatementCaches::detach']
         ctx.ob('R09.5', 'postgres Manager::detach forwards to the statement cache registry', len(fw) == 1, ctx.where(pg), '', construct='pg-detach-forward')
 
+    # ---- R09.9 take / retain / the Drop paths keep all three books (effect ledger) ------------------------------
+    from .ledger_rules import ledger_obligations
+    ledger_obligations(ctx, r, 'R09.9', (0, 1, 2), only={r.OBJ_TAKE.path, r.OBJ_DROP.path, r.RETAIN.path, r.UNREADY_DROP.path})
+
     ctx.not_decided += ['nothing material beyond the trusted VecDeque / Vec semantics; a panicking retain predicate poisons the pool (documented, INFO under C02)']
     ctx.assumptions += ['VecDeque::remove(i) removes exactly the element at i', 'checked-out objects are not reachable from the idle queue (ownership)']
